@@ -558,9 +558,37 @@ def s17_4(ctx, P):
                   bool(dr) and bool(tl), function=b.path, count=len(dr))
 
 
+def message_parser_consumes_bodies(ctx, P):
+    """S17-4 (sibling of Packet::from_reader): the message parser reads Signature / One-Pass-Signature / ESK packets out of a
+    `PacketBodyReader` and then continues the packet stream with `into_inner()`.  Handing the source back is only sound after the
+    body was consumed in full (`drain()`, leftover => error) - otherwise the next header is read from inside the body of the
+    packet just parsed (bodies above the reader's buffer) or trailing octets of a packet are ignored.  Every `into_inner()` of a
+    packet body reader in the message parser must be dominated by a call that drains that reader."""
+    n = 0
+    for p, r in sorted(ctx.f.bodies.items()):
+        if not re.match(r'(<)?composed::message::parser::', p) or '::tests::' in p:
+            continue
+        b = ctx.wrap(r)
+        outs = b.calls(r'packet_body::PacketBodyReader::<.*>::into_inner$|PacketBodyReader::<R>::into_inner$')
+        if not outs:
+            ctx.functions.discard(p)
+            continue
+        drains = set(i for i, t in b.calls(r'BufReadParsing::drain$|PacketBodyReader::<.*>::drain$|parser::ensure_\w+$|parser::\w*consum\w*$|parser::\w*drain\w*$'))
+        for k, (i, t) in enumerate(outs):
+            n += 1
+            # a reader that was never parsed from (created and handed on) does not exist here: every site follows a parse or a skip
+            wit = b.find_path(0, {i}, removed=frozenset(drains))
+            ctx.check('%s:S17-4:message-parser-drains:%s#%d' % (P, p, k), 'R-dom',
+                      'the packet source is handed back (into_inner) only after the body reader was drained, in %s' % p.split('::')[-1],
+                      wit is None, function=p, site=site(b, i), witness=fmt_path(b, wit),
+                      missing=None if wit is None else 'a path reaches into_inner() without draining the body: octets left in the body are parsed as the next packet / ignored')
+    ctx.floor(P + ':S17-4:message-parser-drains:floor', 'into_inner() sites of packet body readers in the message parser', n, 6)
+
+
 def run(ctx):
     P = 'C17'
     partial_emitters(ctx, P)
+    message_parser_consumes_bodies(ctx, P)
     running_offset_emitters(ctx, P)
     legacy_header_self_consistent(ctx, P)
     legacy_header_tag_range(ctx, P)
